@@ -10,7 +10,10 @@
    (targeted families).  The item list of slot 1 can be cut into 1..3 consecutive
    chunks = several lines with the same identifier (families of kind "walks":
    slot 1 ranges instead over every way of leaving elements out of every walk of
-   the graph with a bounded number of edges); the lines arrive in the
+   the graph with a bounded number of edges; families of kind "repeat": only the
+   cases in which the path of slot 1 comes to another path more than once and
+   still has a walk -- see Repeating).  Two slots may carry the same identifier:
+   they are two more lines of one group.  The lines arrive in the
    order `perm` (identity / identity and reverse / every permutation) and carry
    the tag sets `tg` (disjoint, equal, contradictory ...).  `arr` is the
    arrangement of the group lines relative to the base graph (1 graph first,
@@ -95,14 +98,41 @@ PermsFor(n) ==
     [] Fam.orders = "rev" -> {Ident(n), [i \in 1..n |-> n + 1 - i]}
     [] OTHER -> {Ident(n)}
 
-\* shard of a case: decided by the ends of the first two item lists
-Key(a, b) == a[1] + 5 * a[Len(a)] + (IF b = <<>> THEN 0 ELSE 3 * b[1] + 7 * b[Len(b)])
+\* shard of a case: a hash of its item lists
+RECURSIVE Hash(_, _)
+Hash(s, h) == IF s = <<>> THEN h ELSE Hash(Tail(s), (h * 31 + Head(s)) % 10007)
+Key(a, b, c, d) == Hash(a \o <<0>> \o b \o <<0>> \o c \o <<0>> \o d, 7)
+
+\* --- families of kind "repeat": only the cases in which the path of slot 1 comes to
+\* one of the other paths MORE THAN ONCE (as siblings, or through different intermediate
+\* paths; counted over the expansion of the item lists) and still has a walk or is
+\* ambiguous: no path is nested in itself, the repeated path is simply walked again
+LD(rt, id, it, t) == [rt |-> rt, id |-> id, it |-> it, tg |-> t]
+Abs(d) == [rt |-> d.rt, name |-> d.id, refs |-> [i \in DOMAIN d.it |-> ItemT[d.it[i]]],
+           f |-> <<>>, num |-> <<>>, tags |-> TagT[d.tg].t, tagn |-> TagT[d.tg].n, ovs |-> <<>>]
+RECURSIVE ReachCount(_, _, _, _)
+ReachCount(D, items, q, stack) ==
+  IF items = <<>> THEN 0
+  ELSE LET x == Head(items)
+           ln == LineNamed(D, x.id) IN
+       (IF x.id = q THEN 1 ELSE 0)
+       + (IF ln.rt = "O" /\ x.id \notin stack THEN ReachCount(D, ln.refs, q, stack \cup {x.id}) ELSE 0)
+       + ReachCount(D, Tail(items), q, stack)
+Repeating(a, b, c, d) ==
+  LET S == <<a, b, c, d>>
+      D == DeliverAll(Graph, [k \in 1..NS |-> Abs(LD(Fam.slots[k].rt, Fam.slots[k].id, S[k], 1))])
+      top == Fam.slots[1].id IN
+  /\ \E k \in 2..NS : /\ Fam.slots[k].rt = "O"
+                       /\ ReachCount(D, LineNamed(D, top).refs, Fam.slots[k].id, {top}) >= 2
+  /\ LET cp == CapturedPath(D, top) IN IF cp.ok THEN TRUE ELSE cp.kind = "ambiguous"
+
 Init ==
   /\ s1 \in SeqsOf(1)
   /\ s2 \in SlotSet(2)
-  /\ Key(s1, s2) % Fam.nsh = Fam.sh
   /\ s3 \in SlotSet(3)
   /\ s4 \in SlotSet(4)
+  /\ Key(s1, s2, s3, s4) % Fam.nsh = Fam.sh
+  /\ Fam.kind = "repeat" => Repeating(s1, s2, s3, s4)
   /\ cut \in Cuts(Len(s1))
   /\ tg \in {t \in Rng(Fam.tagsets) : Len(t) = Len(cut)}
   /\ perm \in PermsFor(Len(cut) + NS - 1)
@@ -114,14 +144,11 @@ Spec == Init /\ [][Next]_vars
 \* line descriptions (indices into the catalogue tables) in arrival order
 Start(i) == IF i = 1 THEN 1 ELSE 1 + cut[1] + (IF i = 3 THEN cut[2] ELSE 0)
 Chunk(i) == SubSeq(s1, Start(i), Start(i) + cut[i] - 1)
-LD(rt, id, it, t) == [rt |-> rt, id |-> id, it |-> it, tg |-> t]
 Rest == LET S == <<s1, s2, s3, s4>> IN
         [k \in 1..(NS - 1) |-> LD(Fam.slots[k + 1].rt, Fam.slots[k + 1].id, S[k + 1], 1)]
 Lines0 == [i \in 1..Len(cut) |-> LD(Fam.slots[1].rt, Fam.slots[1].id, Chunk(i), tg[i])] \o Rest
 LinesD == [i \in DOMAIN Lines0 |-> Lines0[perm[i]]]
 
-Abs(d) == [rt |-> d.rt, name |-> d.id, refs |-> [i \in DOMAIN d.it |-> ItemT[d.it[i]]],
-           f |-> <<>>, num |-> <<>>, tags |-> TagT[d.tg].t, tagn |-> TagT[d.tg].n, ovs |-> <<>>]
 Lines == [i \in DOMAIN LinesD |-> Abs(LinesD[i])]
 
 \* the document: the graph, then the group lines in arrival order (the arrangement
@@ -136,12 +163,12 @@ GroupIds == LET all == [i \in DOMAIN Lines |-> Lines[i].name] IN
 WalkSet(S) == {r.w : r \in {x \in S : x.ok}}
 HasErr(S) == \E r \in S : ~r.ok
 
-ClassOf(D, id) ==
+\* B: the outcomes of the path under every reading (Groups!ByReading), <<>> for a set
+ClassOf(D, id, B) ==
   LET ln == LineNamed(D, id) IN
   IF ln.rt = "O" THEN
-    LET cp == CapturedPath(D, id)
-        rel == Outcomes(D, id)
-        differs == HasErr(rel) # ~cp.ok \/ Cardinality(WalkSet(rel)) > 1 IN
+    LET cp == StrictAnswer(B[Strict])
+        differs == MayFailIn(B) # ~cp.ok \/ Cardinality(WalksIn(B)) > 1 IN
     <<id, "O", IF cp.ok THEN "walk" ELSE cp.kind,
       IF cp.ok THEN Len(cp.walk) > Len(ln.refs) ELSE TRUE, differs>>
   ELSE IF ln.rt = "U" THEN
@@ -156,26 +183,23 @@ ClassOf(D, id) ==
 RevItems(its) == [i \in 1..Len(its) |-> InvRef(its[Len(its) + 1 - i])]
 SegEdgeNames(D, w) == [i \in DOMAIN w |-> IF i % 2 = 1 THEN w[i] ELSE [id |-> w[i].id, o |-> ""]]
 
-StrictDet(D, id) ==
-  LET S == PathOutcomes(D, Strict, id) IN
+StrictDet(D, id, S) ==
   \/ \A r \in S : r.ok /\ \A q \in S : SegEdgeNames(D, q.w) = SegEdgeNames(D, r.w)
   \/ Cardinality(S) = 1 /\ HasErr(S)
-StrictInRelaxed(D, id) ==
-  LET S == PathOutcomes(D, Strict, id)
-      T == Outcomes(D, id) IN
-  /\ WalkSet(S) \subseteq WalkSet(T)
-  /\ HasErr(S) => HasErr(T)
-WellFormed(D, id) ==
-  \A w \in WalkSet(PathOutcomes(D, Strict, id)) :
+StrictInRelaxed(D, id, B) ==
+  LET S == B[Strict] IN
+  /\ WalkSet(S) \subseteq WalksIn(B)
+  /\ (\A r \in S : ~r.ok) => MayFailIn(B)
+WellFormed(D, id, S) ==
+  \A w \in WalkSet(S) :
     /\ Len(w) % 2 = 1
     /\ \A i \in DOMAIN w :
          IF i % 2 = 1 THEN LineNamed(D, w[i].id).rt = "S"
          ELSE \E j \in EdgeIdxOf(D) :      \* (a supplied edge may be unnamed)
                 /\ D[j].name = w[i].id
                 /\ EFrom(D[j], w[i].o) = w[i - 1] /\ ETo(D[j], w[i].o) = w[i + 1]
-Reversal(D, id) ==
+Reversal(D, id, fw) ==
   LET its == LineNamed(D, id).refs
-      fw == WalksOf(D, Strict, its, {id})
       bw == WalksOf(D, Strict, RevItems(its), {id}) IN
   /\ WalkSet(bw) = {RevWalk(w) : w \in WalkSet(fw)}
   /\ HasErr(bw) = HasErr(fw)
@@ -203,17 +227,19 @@ InducedClosed(D, id) ==
          cp.ok => {x.id : x \in Rng(SegsOfWalk(D, cp.walk))} \subseteq is.segs
                   /\ {x.id : x \in Rng(EdgesOfWalk(D, cp.walk))} \subseteq is.edges
 
-Design(D, id) ==
+Design(D, id, B) ==
   LET rt == LineNamed(D, id).rt IN
   /\ MergeAgrees(D, id)
-  /\ rt = "O" => StrictDet(D, id) /\ StrictInRelaxed(D, id) /\ WellFormed(D, id) /\ Reversal(D, id)
+  /\ rt = "O" => LET S == B[Strict] IN
+                 StrictDet(D, id, S) /\ StrictInRelaxed(D, id, B) /\ WellFormed(D, id, S) /\ Reversal(D, id, S)
   /\ rt = "U" => InducedClosed(D, id)
 
 Compact(d) == <<d.rt, d.id, d.it, d.tg>>
 Case ==
   LET D == Doc
-      ids == GroupIds IN
+      ids == GroupIds
+      Bs == [i \in DOMAIN ids |-> IF LineNamed(D, ids[i]).rt = "O" THEN ByReading(D, ids[i]) ELSE <<>>] IN
   /\ PrintT("CASE " \o ToString(<<arr, [i \in DOMAIN LinesD |-> Compact(LinesD[i])],
-                                   [i \in DOMAIN ids |-> ClassOf(D, ids[i])]>>))
-  /\ \A i \in DOMAIN ids : Design(D, ids[i])
+                                   [i \in DOMAIN ids |-> ClassOf(D, ids[i], Bs[i])]>>))
+  /\ \A i \in DOMAIN ids : Design(D, ids[i], Bs[i])
 =============================================================================
